@@ -8,6 +8,9 @@
 //!     library's own equality (so: applying updates/blocks before or after a round trip is the same)
 //! Z4  the manager read back (with the shadow monitors) lists the same channels with the same
 //!     balances, limits, pending HTLCs and the same recent payments as the original
+//! Z7  timer probe: the manager read back is given four timer ticks (more than the MPP timeout); it must not
+//!     give up a payment that had been announced claimable before the round trip and that the
+//!     original went on to claim without a restart in between
 //! Z6  byte-level: every sampled strict prefix of an encoding fails to read; an unknown odd record
 //!     appended to the trailing TLV stream is ignored (equal object), an unknown even one rejected
 use super::{Monitor, Verdicts};
@@ -18,6 +21,7 @@ use lightning::chain::channelmonitor::{ChannelMonitor, ChannelMonitorUpdate};
 use lightning::chain::BlockLocator;
 use lightning::ln::channelmanager::ChannelManagerReadArgs;
 use lightning::ln::types::ChannelId;
+use lightning::events::EventsProvider;
 use lightning::util::ser::{Readable, ReadableArgs, Writeable};
 use std::collections::{BTreeSet, HashMap};
 use std::sync::Arc;
@@ -41,11 +45,15 @@ pub struct SerialMonitor {
 	persisted_first: BTreeSet<(usize, ChannelId, u64)>,
 	settles: u64,
 	rng: vcore::Rng,
+	/// (node, hash): PaymentClaimable delivered, nothing given up / claimed since, no restart since
+	announced: BTreeSet<(usize, [u8; 32])>,
+	/// (node, hash) a read-back copy gave up under timer ticks while it was announced
+	probe_gave_up: BTreeSet<(usize, [u8; 32])>,
 }
 
 impl SerialMonitor {
 	pub fn new() -> Self {
-		SerialMonitor { shadows: HashMap::new(), stale_nodes: BTreeSet::new(), pending: HashMap::new(), persisted_first: BTreeSet::new(), settles: 0, rng: vcore::Rng::new(0xC12) }
+		SerialMonitor { shadows: HashMap::new(), stale_nodes: BTreeSet::new(), pending: HashMap::new(), persisted_first: BTreeSet::new(), settles: 0, rng: vcore::Rng::new(0xC12), announced: BTreeSet::new(), probe_gave_up: BTreeSet::new() }
 	}
 	fn apply(&mut self, node: usize, chan: ChannelId, update_id: u64, bytes: &[u8], v: &mut Verdicts) {
 		if let Some(s) = self.shadows.get_mut(&(node, chan)) {
@@ -175,6 +183,25 @@ impl Monitor for SerialMonitor {
 				self.shadows.retain(|k, _| k.0 != *node);
 				self.pending.retain(|k, _| k.0 != *node);
 				self.persisted_first.retain(|k| k.0 != *node);
+				self.announced.retain(|k| k.0 != *node);
+				self.probe_gave_up.retain(|k| k.0 != *node);
+			},
+			Obs::Event { node, ev, .. } => match ev {
+				lightning::events::Event::PaymentClaimable { payment_hash, .. } => {
+					self.announced.insert((*node, payment_hash.0));
+				},
+				lightning::events::Event::HTLCHandlingFailed { failure_type: lightning::events::HTLCHandlingFailureType::Receive { payment_hash }, .. } => {
+					self.announced.remove(&(*node, payment_hash.0));
+					self.probe_gave_up.remove(&(*node, payment_hash.0));
+				},
+				lightning::events::Event::PaymentClaimed { payment_hash, .. } => {
+					v.rep.count("c12_z7_claims_checked_against_probes");
+					self.announced.remove(&(*node, payment_hash.0));
+					if self.probe_gave_up.remove(&(*node, payment_hash.0)) {
+						v.violation("C12", "Z7-timer-probe", "a ChannelManager read back from its serialization gives up, after a few timer ticks, a payment that had been announced claimable and that the original went on to claim", format!("node{} hash {}", node, vcore::hex(&payment_hash.0[..6])));
+					}
+				},
+				_ => {},
 			},
 			Obs::Tap(Ev::WatchUpdate { node, chan, update_id, bytes, roundtrip, .. }) => {
 				v.rep.count("c12_z1_monitor_updates_roundtripped");
@@ -322,6 +349,30 @@ impl Monitor for SerialMonitor {
 							}
 						},
 						Err(e) => v.violation("C12", "Z1-roundtrip", &format!("a ChannelManager that was read back does not read back again: {}", canon(&e)), format!("node{}: {}", n, e)),
+					}
+					// Z7
+					if self.announced.iter().any(|k| k.0 == n) {
+						v.rep.count("c12_z7_timer_probes");
+						let gave_up = std::sync::Mutex::new(Vec::new());
+						let r = vcore::guarded(|| {
+							for _ in 0..4 {
+								m2.timer_tick_occurred();
+							}
+							m2.process_pending_events(&|e: lightning::events::Event| {
+								if let lightning::events::Event::HTLCHandlingFailed { failure_type: lightning::events::HTLCHandlingFailureType::Receive { payment_hash }, .. } = e {
+									gave_up.lock().unwrap().push(payment_hash.0);
+								}
+								Ok(())
+							});
+						});
+						if r.is_ok() {
+							for h in gave_up.into_inner().unwrap() {
+								if self.announced.contains(&(n, h)) {
+									v.rep.count("c12_z7_probe_gave_up_announced_payment");
+									self.probe_gave_up.insert((n, h));
+								}
+							}
+						}
 					}
 				},
 				Err(e) => v.violation("C12", "Z1-roundtrip", &format!("a ChannelManager does not read back: {}", canon(&e)), format!("node{}: {}", n, e)),
